@@ -139,6 +139,11 @@ func buildWitness(o *observation, an *analysis) *witness {
 	if cap == 0 {
 		cap = 1000
 	}
+	if len(o.Spec.Reconfig) > 0 {
+		// the capacity changes during the run; the model lets Put refuse at any time, so the run is
+		// replayed with an unbounded queue (what matters: nothing accepted leaves the queue unsent)
+		cap = 0
+	}
 	q := 0
 	if queue {
 		q = 1
